@@ -14,12 +14,23 @@ impl Clock for VkClock {
     fn now(&self) -> SystemTime {
         // the clock is a user-supplied callback: other threads may run while it executes
         vs::schedule_point(vs::S_USER);
-        unsafe { UNIX_EPOCH + Duration::new(NOW_SECS, NOW_NANOS) }
+        unsafe { time(NOW_SECS, NOW_NANOS) }
     }
 }
 pub(crate) fn set_now(secs: u64, nanos: u32) { unsafe { NOW_SECS = secs; NOW_NANOS = nanos; } }
 pub(crate) fn clock() -> ClockType { Box::new(VkClock) }
-pub(crate) fn time(secs: u64, nanos: u32) -> SystemTime { UNIX_EPOCH + Duration::new(secs, nanos) }
+/// `UNIX_EPOCH + (secs, nanos)` assembled field by field instead of through `Duration::new` + `checked_add`:
+/// those normalise the nanoseconds with a division, after which CBMC no longer sees a CONCRETE second as concrete
+/// when the nanoseconds are symbolic (and the expiry-index shard `secs % shards` becomes a symbolic array index).
+/// Relies on SystemTime being { seconds: i64, nanoseconds: u32 } on this target; `c09_time_construction_is_faithful`
+/// checks the construction against the arithmetic one for all values, so a layout change cannot go unnoticed.
+#[repr(C)]
+struct RawTime { sec: i64, nsec: u32 }
+pub(crate) fn time(secs: u64, nanos: u32) -> SystemTime {
+    let epoch: RawTime = unsafe { core::mem::transmute::<SystemTime, RawTime>(UNIX_EPOCH) };
+    unsafe { core::mem::transmute::<RawTime, SystemTime>(RawTime { sec: epoch.sec + secs as i64, nsec: nanos }) }
+}
+pub(crate) fn time_arith(secs: u64, nanos: u32) -> SystemTime { UNIX_EPOCH + Duration::new(secs, nanos) }
 
 // NOTE: never decompose a SystemTime in a harness (duration_since + Duration accessors stall CBMC:
 // > 60 s for one call); build the expected SystemTime from (secs, nanos) with `time()` and compare.
